@@ -13,7 +13,7 @@
   any supplier table) and EVERY schedule `sched : List Nat` — any poll order, including spurious
   polls of tasks that cannot progress and polls of ids that are no task.
 -/
-import MdProofs.Lemmas.OnceWake
+import MdProofs.Lemmas.OnceReq
 namespace MdModel.Once
 open MdModel
 
@@ -174,6 +174,14 @@ theorem round_robin_finishes (cfg : Cfg) (sched : List Nat) :
   finish_allFin _ (invA_reach cfg sched)
     (Nat.le_succ_of_le (measure_exec_le cfg sched (init cfg)))
 
+/-- **C12.5b** the completion phase of a WAKER-RESPECTING executor (rounds that poll only the tasks
+    whose waker fired, `measure (init cfg) + 1` of them, started after any schedule) ends with every
+    task finished: `join_all`, tokio or any executor that polls only woken tasks completes. -/
+theorem waker_rounds_finish (cfg : Cfg) (sched : List Nat) :
+    allFin cfg (finishW cfg (measure cfg (init cfg) + 1) (exec cfg sched (init cfg))) = true :=
+  finishW_allFin _ (invA_reach cfg sched) (invW_reach cfg sched)
+    (Nat.le_succ_of_le (measure_exec_le cfg sched (init cfg)))
+
 /-- the number of rounds needed is bounded by the initial measure, a function of the
     configuration only: `Σ_tasks (1 + Σ_lookups (suspensions + 3))`. -/
 theorem measure_bounded (cfg : Cfg) (sched : List Nat) :
@@ -225,5 +233,618 @@ example :
     let cfg : Cfg := ⟨[[5], [5], [5]], fun _ => ⟨1, .notFound⟩⟩
     let s := exec cfg [0, 1, 2, 0] (init cfg)
     allFin cfg s = false ∧ runnable cfg s = [1] ∧ runnable cfg (poll cfg 1 s) = [2] := by decide
+
+/-! ## 7. Programs whose continuation depends on what a lookup observed (`MdModel.OnceG`)
+
+  `MultiSymbolProvider::walk_frame` decides from the answer it has just received whether it
+  consults the next provider. `MdModel.OnceG` is the machine of sections 1–6 over such programs:
+  an item names a cache slot and how many following items are dropped when the observed result
+  is `ok`. The decision is taken from the OBSERVED value. `g_simulation`: for every schedule it is
+  in lock step with the machine of sections 1–6 on the statically compiled programs — so
+  everything proved above holds for it. -/
+
+/-- **C12.7** simulation, for every configuration and every schedule -/
+theorem g_simulation (cfg : ICfg) (sched : List Nat) :
+    absS cfg (gexec cfg sched (ginit cfg)) = exec (compile cfg) sched (init (compile cfg)) :=
+  sim_exec cfg sched
+
+theorem g_doneOk (cfg : ICfg) (sched : List Nat) : DoneOk cfg (gexec cfg sched (ginit cfg)) :=
+  doneOk_gexec sched (doneOk_ginit cfg)
+
+/-- the measure of the dynamic machine: that of the compiled configuration -/
+def gmeasure (cfg : ICfg) (s : GState) : Nat := measure (compile cfg) (absS cfg s)
+
+/-- **C12.7a** at most one supplier call per slot -/
+theorem g_at_most_once (cfg : ICfg) (sched : List Nat) (k : Nat) :
+    callCount k (gexec cfg sched (ginit cfg)).log ≤ 1 := by
+  rw [sim_log]; exact at_most_once (compile cfg) sched k
+
+/-- **C12.7b** what a requester observes is the supplier's outcome for that slot; hence agreement -/
+theorem g_remembered_outcome (cfg : ICfg) (sched : List Nat) (t k : Nat) (r : Res)
+    (hm : Event.seen t k r ∈ (gexec cfg sched (ginit cfg)).log) : r = cfg.outcome k := by
+  rw [sim_log] at hm; exact remembered_outcome (compile cfg) sched t k r hm
+
+theorem g_agreement (cfg : ICfg) (sched : List Nat) (t₁ t₂ k : Nat) (r₁ r₂ : Res)
+    (h₁ : Event.seen t₁ k r₁ ∈ (gexec cfg sched (ginit cfg)).log)
+    (h₂ : Event.seen t₂ k r₂ ∈ (gexec cfg sched (ginit cfg)).log) : r₁ = r₂ := by
+  rw [g_remembered_outcome cfg sched t₁ k r₁ h₁, g_remembered_outcome cfg sched t₂ k r₂ h₂]
+
+/-- **C12.7c** a finished task has looked up exactly the statically compiled keys, each with the
+    supplier's outcome: the DYNAMIC choices coincide with the static reading, whatever the schedule -/
+theorem g_results_final (cfg : ICfg) (sched : List Nat) (t : Nat)
+    (hfin : gisFin (gexec cfg sched (ginit cfg)) t = true) :
+    seenBy t (gexec cfg sched (ginit cfg)).log =
+      (compS cfg 0 (cfg.prog t)).map (expected (compile cfg)) := by
+  rw [sim_isFin cfg, g_simulation] at hfin
+  rw [sim_log, results_final (compile cfg) sched t hfin, compile_prog]
+
+theorem g_results_schedule_free (cfg : ICfg) (sched₁ sched₂ : List Nat) (t : Nat)
+    (h₁ : gisFin (gexec cfg sched₁ (ginit cfg)) t = true)
+    (h₂ : gisFin (gexec cfg sched₂ (ginit cfg)) t = true) :
+    seenBy t (gexec cfg sched₁ (ginit cfg)).log = seenBy t (gexec cfg sched₂ (ginit cfg)).log := by
+  rw [g_results_final cfg sched₁ t h₁, g_results_final cfg sched₂ t h₂]
+
+/-- **C12.7d** progress and no lost wake-up -/
+theorem g_no_lost_wakeup (cfg : ICfg) (sched : List Nat)
+    (hnf : gallFin cfg (gexec cfg sched (ginit cfg)) = false) :
+    ∃ t, t < cfg.ntasks ∧ ((gexec cfg sched (ginit cfg)).task t).woken = true ∧
+      gisFin (gexec cfg sched (ginit cfg)) t = false ∧
+      gmeasure cfg (gpoll cfg t (gexec cfg sched (ginit cfg))) <
+        gmeasure cfg (gexec cfg sched (ginit cfg)) := by
+  rw [sim_allFin, g_simulation] at hnf
+  obtain ⟨t, ht, hw, hf, hm⟩ := no_lost_wakeup (compile cfg) sched hnf
+  refine ⟨t, by simpa using ht, ?_, ?_, ?_⟩
+  · rw [← g_simulation] at hw; simpa using hw
+  · rw [sim_isFin cfg, g_simulation]; exact hf
+  · unfold gmeasure
+    rw [sim_gpoll cfg t (g_doneOk cfg sched), g_simulation]
+    exact hm
+
+theorem g_runnable_nonempty (cfg : ICfg) (sched : List Nat)
+    (hnf : gallFin cfg (gexec cfg sched (ginit cfg)) = false) :
+    grunnable cfg (gexec cfg sched (ginit cfg)) ≠ [] := by
+  rw [sim_allFin, g_simulation] at hnf
+  rw [sim_runnable, g_simulation]
+  exact runnable_nonempty (compile cfg) sched hnf
+
+/-- **C12.7e** the round-robin completion phase of the driver ends with every task finished, after
+    any schedule; and so does any fair continuation -/
+theorem g_round_robin_finishes (cfg : ICfg) (sched : List Nat) :
+    gallFin cfg (gfinish cfg (gfuel cfg) (gexec cfg sched (ginit cfg))) = true := by
+  rw [sim_allFin, (sim_gfinish cfg _ (g_doneOk cfg sched)).1, g_simulation]
+  exact round_robin_finishes (compile cfg) sched
+
+/-- the same for the completion phase of a waker-respecting executor -/
+theorem g_waker_rounds_finish (cfg : ICfg) (sched : List Nat) :
+    gallFin cfg (gfinishW cfg (gfuel cfg) (gexec cfg sched (ginit cfg))) = true := by
+  rw [sim_allFin, sim_gfinishW cfg _ (g_doneOk cfg sched), g_simulation]
+  exact waker_rounds_finish (compile cfg) sched
+
+theorem gexec_append (cfg : ICfg) (a b : List Nat) (s : GState) :
+    gexec cfg (a ++ b) s = gexec cfg b (gexec cfg a s) := by
+  induction a generalizing s with
+  | nil => rfl
+  | cons t ts ih => simp only [List.cons_append, gexec]; exact ih _
+
+theorem g_fair_schedule_finishes (cfg : ICfg) (sched : List Nat) (rounds : List (List Nat))
+    (hfair : ∀ r ∈ rounds, ∀ t, t < cfg.ntasks → t ∈ r)
+    (hlen : gmeasure cfg (gexec cfg sched (ginit cfg)) ≤ rounds.length) :
+    gallFin cfg (gexec cfg (sched ++ rounds.flatten) (ginit cfg)) = true := by
+  rw [sim_allFin, g_simulation]
+  apply fair_schedule_finishes (compile cfg) sched rounds
+  · intro r hr t ht; exact hfair r hr t (by simpa using ht)
+  · unfold gmeasure at hlen; rw [g_simulation] at hlen; exact hlen
+
+/-- **C12.7f** once every task has finished, every slot some compiled program mentions has been
+    asked for EXACTLY once -/
+theorem g_exactly_once_final (cfg : ICfg) (sched : List Nat)
+    (hfin : gallFin cfg (gexec cfg sched (ginit cfg)) = true) (k : Nat)
+    (hk : k ∈ allKeys (compile cfg)) :
+    callCount k (gexec cfg sched (ginit cfg)).log = 1 := by
+  rw [sim_allFin, g_simulation] at hfin
+  rw [sim_log]
+  obtain ⟨r, hr⟩ := all_done_of_allFin (invA_reach (compile cfg) sched) hfin hk
+  have := (countInv_reach (compile cfg) sched k).1
+  rw [this, hr]; rfl
+
+/-- non-vacuity: two tasks walk key 0 through two providers (slots 0 and 1); provider 0 has no CFI
+    (its item skips nothing), provider 1 has (`skipOk` irrelevant, it is the last); a third item
+    (slot 2) follows. Task 1 is blocked on slot 0 while task 0 is inside the supplier; with
+    provider 0 GOOD (second configuration) slot 1 is never asked for. -/
+example :
+    let cfg : ICfg := ⟨[[⟨0, 0⟩, ⟨1, 0⟩, ⟨2, 0⟩], [⟨0, 0⟩, ⟨1, 0⟩]], fun _ => ⟨1, .ok⟩⟩
+    let s := gexec cfg [0, 1, 0, 1, 0, 1, 0, 1, 0, 0] (ginit cfg)
+    gallFin cfg s = true ∧ callCount 0 s.log = 1 ∧ callCount 1 s.log = 1 ∧
+      seenBy 1 s.log = [(0, .ok), (1, .ok)] := by decide
+
+example :
+    let cfg : ICfg := ⟨[[⟨0, 1⟩, ⟨1, 0⟩, ⟨2, 0⟩], [⟨0, 1⟩, ⟨1, 0⟩]], fun _ => ⟨1, .ok⟩⟩
+    let s := gexec cfg [0, 1, 0, 1, 0, 1, 0, 1, 0, 0] (ginit cfg)
+    gallFin cfg s = true ∧ callCount 0 s.log = 1 ∧ callCount 1 s.log = 0 ∧
+      seenBy 1 s.log = [(0, .ok)] ∧ compS cfg 0 (cfg.prog 0) = [0, 2] := by decide
+
+/-- the decision is dynamic: with a supplier that does NOT find the symbols the very same program
+    goes on to slot 1 -/
+example :
+    let cfg : ICfg := ⟨[[⟨0, 1⟩, ⟨1, 0⟩, ⟨2, 0⟩], [⟨0, 1⟩, ⟨1, 0⟩]], fun k => ⟨1, if k = 0 then .notFound else .ok⟩⟩
+    let s := gexec cfg [0, 1, 0, 1, 0, 1, 0, 1, 0, 0] (ginit cfg)
+    gallFin cfg s = true ∧ seenBy 1 s.log = [(0, .notFound), (1, .ok)] ∧
+      compS cfg 0 (cfg.prog 0) = [0, 1, 2] := by decide
+
+/-! ## 8. The requests of the symbolizer API (`MdModel.OnceReq`)
+
+  Module identity → `module_key` → cache slot; `fill_symbol` / `walk_frame` go through the `symbols`
+  slot of the key, `get_file_path` straight to the supplier (a slot of its own file cache if it has
+  one, a plain call otherwise); several providers behind a `MultiSymbolProvider`. -/
+
+/-! ### 8.1 "per distinct module": what `module_key` distinguishes -/
+
+/-- **C12.8a** `same_key_iff`: two modules have the same key iff their code file STRINGS, code ids,
+    debug files and debug ids all agree — all four components take part. -/
+theorem same_key_iff (m₁ m₂ : ModId) :
+    moduleKey m₁ = moduleKey m₂ ↔
+      m₁.codeFile.str = m₂.codeFile.str ∧ m₁.codeId = m₂.codeId ∧
+      m₁.debugFile = m₂.debugFile ∧ m₁.debugId = m₂.debugId :=
+  moduleKey_eq_iff m₁ m₂
+
+/-- the code file takes part as the string `Module::code_file()` returns: "no code file" and "empty
+    code file" are the same, every other difference is a difference -/
+theorem code_file_same_iff (a b : CodeFile) :
+    a.str = b.str ↔ a = b ∨ ((a = .absent ∨ a = .empty) ∧ (b = .absent ∨ b = .empty)) :=
+  codeStr_eq_iff a b
+
+/-- a difference in any ONE component makes two different modules (non-vacuity of `same_key_iff`
+    in each component, incl. `None` against `Some`) -/
+example :
+    let m : ModId := ⟨.path 0 0, some 0, some 0, some 0⟩
+    moduleKey m ≠ moduleKey { m with codeFile := .path 1 0 } ∧
+    moduleKey m ≠ moduleKey { m with codeFile := .empty } ∧
+    moduleKey m ≠ moduleKey { m with codeId := some 1 } ∧
+    moduleKey m ≠ moduleKey { m with codeId := none } ∧
+    moduleKey m ≠ moduleKey { m with debugFile := some 1 } ∧
+    moduleKey m ≠ moduleKey { m with debugFile := none } ∧
+    moduleKey m ≠ moduleKey { m with debugId := some 1 } ∧
+    moduleKey m ≠ moduleKey { m with debugId := none } ∧
+    moduleKey { m with codeFile := .absent } = moduleKey { m with codeFile := .empty } := by
+  intro m; simp [m, moduleKey, CodeFile.str]
+
+/-- **C12.8b** two requests use the same `symbols` slots iff their modules have the same key: the
+    table name of a key (`RCfg.key`) is equal exactly for equal keys, and slots of different
+    (provider, key) never coincide, nor do slots of different kinds -/
+theorem same_module_same_slot (rc : RCfg) {i j : Nat} (hi : i < rc.M) (hj : j < rc.M) (p : Nat) :
+    symSlot rc p (rc.key i) = symSlot rc p (rc.key j) ↔
+      moduleKey rc.mods[i] = moduleKey rc.mods[j] := by
+  rw [← keyIx_eq_iff hi hj]
+  constructor
+  · intro h; exact (symSlot_inj (keyIx_lt hi) (keyIx_lt hj) h).2
+  · intro h; unfold RCfg.key; rw [h]
+
+theorem slots_distinct (rc : RCfg) :
+    (∀ p k p' k', k < rc.M → k' < rc.M → symSlot rc p k = symSlot rc p' k' → p = p' ∧ k = k') ∧
+    (∀ p k fk p' k' fk', k < rc.M → k' < rc.M → fk < 3 → fk' < 3 →
+      fileSlot rc p k fk = fileSlot rc p' k' fk' → p = p' ∧ k = k' ∧ fk = fk') ∧
+    (∀ t j p t' j' p', t < rc.T → t' < rc.T → p < rc.P → p' < rc.P →
+      privSlot rc t j p = privSlot rc t' j' p' → t = t' ∧ j = j' ∧ p = p') ∧
+    (∀ p k p' k' fk, symSlot rc p k ≠ fileSlot rc p' k' fk) ∧
+    (∀ p k t j p', symSlot rc p k ≠ privSlot rc t j p') ∧
+    (∀ p k fk t j p', fileSlot rc p k fk ≠ privSlot rc t j p') :=
+  ⟨fun _ _ _ _ hk hk' h => symSlot_inj hk hk' h,
+   fun _ _ _ _ _ _ hk hk' hf hf' h => fileSlot_inj hk hk' hf hf' h,
+   fun _ _ _ _ _ _ ht ht' hp hp' h => privSlot_inj ht ht' hp hp' h,
+   fun p k p' k' fk => sym_ne_file rc p k p' k' fk,
+   fun p k t j p' => sym_ne_priv rc p k t j p',
+   fun p k fk t j p' => file_ne_priv rc p k fk t j p'⟩
+
+/-! ### 8.2 "the supplier is asked at most once per distinct module" — per request kind -/
+
+/-- **C12.8c** `locate_symbols`: at most once per (provider, module key), for every mix of
+    `fill_symbol` / `walk_frame` / `get_file_path` requests and every schedule -/
+theorem locate_symbols_at_most_once (rc : RCfg) (sched : List Nat) (p k : Nat) :
+    callCount (symSlot rc p k) (rexec rc sched).log ≤ 1 :=
+  g_at_most_once (toICfg rc) sched _
+
+/-- **C12.8d** `locate_file` of a supplier WITH its own cache (`HttpSymbolSupplier`): at most one
+    request sequence per (module key, file kind) -/
+theorem locate_file_cached_at_most_once (rc : RCfg) (sched : List Nat) (p k fk : Nat) :
+    callCount (fileSlot rc p k fk) (rexec rc sched).log ≤ 1 :=
+  g_at_most_once (toICfg rc) sched _
+
+/-- `HttpSymbolSupplier`'s `FileKey = (ModuleKey, FileKind)`: two lookups share a slot iff they are
+    for the same module key AND the same kind -/
+theorem file_key_iff (rc : RCfg) {i j fk fk' : Nat} (hi : i < rc.M) (hj : j < rc.M) (hf : fk < 3)
+    (hf' : fk' < 3) (p : Nat) :
+    fileSlot rc p (rc.key i) fk = fileSlot rc p (rc.key j) fk' ↔
+      moduleKey rc.mods[i] = moduleKey rc.mods[j] ∧ fk = fk' := by
+  rw [← keyIx_eq_iff hi hj]
+  constructor
+  · intro h
+    have := fileSlot_inj (keyIx_lt hi) (keyIx_lt hj) hf hf' h
+    exact ⟨this.2.1, this.2.2⟩
+  · rintro ⟨h1, h2⟩; unfold RCfg.key; rw [h1, h2]
+
+theorem rexec_allFin (rc : RCfg) (sched : List Nat) :
+    gallFin (toICfg rc) (rexec rc sched) =
+      allFin (compile (toICfg rc)) (exec (compile (toICfg rc)) sched (init (compile (toICfg rc)))) := by
+  rw [sim_allFin, rexec_abs]
+
+theorem priv_mem_allKeys {rc : RCfg} (hwf : rc.WF) {t j p fk m : Nat} (ht : t < rc.T) (hp : p < rc.P)
+    (hq : (rc.prog t)[j]? = some ⟨.file fk, m⟩) (hc : (rc.prov p).cached = false) :
+    privSlot rc t j p ∈ allKeys (compile (toICfg rc)) := by
+  apply mem_allKeys_of_prog (t := t)
+  rw [compile_prog, toICfg_prog rc ht, compS_expandFrom hwf ht 0 (rc.prog t) (by intro i _; simp)]
+  rw [List.mem_flatMap]
+  refine ⟨(⟨.file fk, m⟩, j), List.mem_zipIdx_iff_getElem?.mpr hq, ?_⟩
+  rw [List.mem_map]
+  refine ⟨p, by simp [specConsulted, hp], ?_⟩
+  simp [reqItem, hc]
+
+/-- **C12.8e** `locate_file` of a supplier WITHOUT a cache: `Symbolizer::get_file_path` does not
+    cache — every `get_file_path` request performs its own supplier call, exactly one per
+    provider, shared with nobody (the slot is private: `slots_distinct`) -/
+theorem locate_file_uncached_once_per_request {rc : RCfg} (hwf : rc.WF) (sched : List Nat)
+    (hfin : gallFin (toICfg rc) (rexec rc sched) = true)
+    {t j p fk m : Nat} (ht : t < rc.T) (hp : p < rc.P)
+    (hq : (rc.prog t)[j]? = some ⟨.file fk, m⟩) (hc : (rc.prov p).cached = false) :
+    callCount (privSlot rc t j p) (rexec rc sched).log = 1 :=
+  g_exactly_once_final (toICfg rc) sched hfin _ (priv_mem_allKeys hwf ht hp hq hc)
+
+/-- **C12.8e'** the private slot of a `get_file_path` request is never contended: no task is ever
+    suspended on its lock, in any schedule — the modelled lookup is a plain call of
+    `supplier.locate_file`, exactly what `Symbolizer::get_file_path` does -/
+theorem uncached_call_is_plain (rc : RCfg) (sched : List Nat) {t j p : Nat} (ht : t < rc.T)
+    (hp : p < rc.P) (u : Nat) (i : Item) (hw : ((rexec rc sched).task u).ctl = .waiting i) :
+    i.slot ≠ privSlot rc t j p := by
+  intro he
+  have h := private_slot_never_waited (rc := rc) sched (j := j) ht hp u
+  rw [← rexec_abs] at h
+  apply h
+  simp only [absS_task, absT, hw, he]
+
+/-- non-vacuity, and the contrast between the two: two tasks ask for the same file of the same
+    module. A supplier without a cache is called twice (two private slots), one with a cache once. -/
+example :
+    let prov (c : Bool) : Prov := ⟨fun _ => ⟨0, .notFound⟩, fun _ => false, fun _ _ => ⟨1, .ok⟩, c⟩
+    let rc (c : Bool) : RCfg := ⟨[⟨.path 0 0, some 0, some 0, some 0⟩], [prov c], [[⟨.file 1, 0⟩], [⟨.file 1, 0⟩]]⟩
+    let s (c : Bool) := rexec (rc c) [0, 1, 0, 1, 0, 1]
+    gallFin (toICfg (rc false)) (s false) = true ∧ gallFin (toICfg (rc true)) (s true) = true ∧
+    callCount (privSlot (rc false) 0 0 0) (s false).log = 1 ∧
+    callCount (privSlot (rc false) 1 0 0) (s false).log = 1 ∧
+    callCount (fileSlot (rc true) 0 0 1) (s true).log = 1 ∧
+    (s false).log.length = 6 ∧ (s true).log.length = 4 := by decide
+
+/-! ### 8.3 "every requester observes the same outcome, including a remembered failure" -/
+
+/-- **C12.8f** whatever a request observes at provider `p` for a module is the outcome that
+    provider's supplier gave for the module's key (symbols), resp. for (key, kind) (cached files) -/
+theorem requester_observes_supplier_outcome (rc : RCfg) (sched : List Nat) (t p k : Nat) (r : Res)
+    (hk : k < rc.M) (hm : Event.seen t (symSlot rc p k) r ∈ (rexec rc sched).log) :
+    r = ((rc.prov p).sym k).res := by
+  have := g_remembered_outcome (toICfg rc) sched t _ r hm
+  rw [this, toICfg_outcome, slotSup_sym rc hk]
+
+theorem requester_observes_file_outcome (rc : RCfg) (sched : List Nat) (t p k fk : Nat) (r : Res)
+    (hk : k < rc.M) (hf : fk < 3) (hm : Event.seen t (fileSlot rc p k fk) r ∈ (rexec rc sched).log) :
+    r = ((rc.prov p).file k fk).res := by
+  have := g_remembered_outcome (toICfg rc) sched t _ r hm
+  rw [this, toICfg_outcome, slotSup_file rc hk hf]
+
+/-! ### 8.4 several providers: consulted in order, first success wins, whatever the schedule -/
+
+theorem rexec_seen_final {rc : RCfg} (sched : List Nat) {t : Nat} (ht : t < rc.T)
+    (hfin : gisFin (rexec rc sched) t = true) :
+    seenBy t (rexec rc sched).log =
+      (compS (toICfg rc) 0 (expandFrom rc t 0 (rc.prog t))).map (expected (compile (toICfg rc))) := by
+  have := g_results_final (toICfg rc) sched t hfin
+  rw [toICfg_prog rc ht] at this
+  exact this
+
+/-- **C12.8g** the answers a finished task got for its requests are those the providers' supplier
+    tables determine (`specOut`): `walk_frame` — the first provider, in the order they were added,
+    whose supplier finds symbols with usable CFI; `get_file_path` — the first whose supplier finds
+    the file; `fill_symbol` — `Ok` iff some provider finds symbols (the frame keeps the LAST such
+    provider's data, as the code's loop leaves it). Independent of the interleaving. -/
+theorem outcomes_final {rc : RCfg} (hwf : rc.WF) (sched : List Nat) {t : Nat} (ht : t < rc.T)
+    (hfin : gisFin (rexec rc sched) t = true) :
+    outcomes rc t (rexec rc sched).log = (rc.prog t).map (specOut rc) := by
+  unfold outcomes
+  rw [rexec_seen_final sched ht hfin]
+  exact outcomesFrom_static hwf ht 0 (rc.prog t) (by intro i _; simp)
+
+theorem outcomes_schedule_free {rc : RCfg} (hwf : rc.WF) (sched₁ sched₂ : List Nat) {t : Nat}
+    (ht : t < rc.T) (h₁ : gisFin (rexec rc sched₁) t = true) (h₂ : gisFin (rexec rc sched₂) t = true) :
+    outcomes rc t (rexec rc sched₁).log = outcomes rc t (rexec rc sched₂).log := by
+  rw [outcomes_final hwf sched₁ ht h₁, outcomes_final hwf sched₂ ht h₂]
+
+/-- **C12.8h** the cache slots a finished task has looked up, in order: request by request, the
+    providers `specConsulted` names, in provider order — every provider for `fill_symbol` and
+    `get_file_path`; for `walk_frame` the providers up to AND INCLUDING the first that succeeds,
+    no later one. -/
+theorem consulted_in_provider_order {rc : RCfg} (hwf : rc.WF) (sched : List Nat) {t : Nat}
+    (ht : t < rc.T) (hfin : gisFin (rexec rc sched) t = true) :
+    (seenBy t (rexec rc sched).log).map Prod.fst =
+      ((rc.prog t).zipIdx 0).flatMap fun x =>
+        (specConsulted rc x.1).map fun p => (reqItem rc t x.2 x.1 p).slot := by
+  rw [rexec_seen_final sched ht hfin, List.map_map]
+  have : (Prod.fst ∘ expected (compile (toICfg rc))) = id := by funext k; rfl
+  rw [this, List.map_id]
+  exact compS_expandFrom hwf ht 0 (rc.prog t) (by intro i _; simp)
+
+/-- what `specConsulted` says for a walk, spelled out -/
+theorem walk_consults_up_to_first_success (rc : RCfg) (m : Nat) :
+    specConsulted rc ⟨.walk, m⟩ =
+      match (List.range rc.P).find? fun p =>
+          ((rc.prov p).sym (rc.key m)).res == .ok && (rc.prov p).cfi (rc.key m) with
+      | some p => List.range (p + 1)
+      | none => List.range rc.P := rfl
+
+/-- non-vacuity: two providers; provider 0 finds symbols WITHOUT CFI for module 0 and nothing for
+    module 1, provider 1 finds symbols with CFI for both. Whatever the interleaving: the walk of
+    module 0 is answered by provider 1, fill_symbol is `Ok` with provider 1's data, the file
+    comes from provider 0; each supplier is asked once per module although two tasks ask. -/
+example :
+    let p0 : Prov := ⟨fun k => ⟨1, if k = 0 then .ok else .notFound⟩, fun _ => false, fun _ _ => ⟨0, .ok⟩, false⟩
+    let p1 : Prov := ⟨fun _ => ⟨2, .ok⟩, fun _ => true, fun _ _ => ⟨1, .ok⟩, false⟩
+    let rc : RCfg := ⟨[⟨.path 0 0, some 0, some 0, some 0⟩, ⟨.path 0 1, some 1, some 1, some 1⟩], [p0, p1],
+      [[⟨.walk, 0⟩, ⟨.fill, 1⟩], [⟨.fill, 0⟩, ⟨.file 1, 1⟩, ⟨.walk, 1⟩]]⟩
+    let s₁ := rexec rc [0, 1, 0, 1, 0, 1, 0, 1, 0, 1, 0, 1, 0, 1, 0, 1, 0, 1]
+    let s₂ := rexec rc [1, 1, 1, 1, 1, 1, 1, 1, 1, 1, 1, 1, 0, 0, 0, 0, 0, 0, 0, 0]
+    gallFin (toICfg rc) s₁ = true ∧ gallFin (toICfg rc) s₂ = true ∧
+    outcomes rc 0 s₁.log = [.walkOk 1, .fillOk 1] ∧ outcomes rc 0 s₂.log = [.walkOk 1, .fillOk 1] ∧
+    outcomes rc 1 s₁.log = [.fillOk 1, .fileOk 0, .walkOk 1] ∧
+    callCount (symSlot rc 0 0) s₁.log = 1 ∧ callCount (symSlot rc 1 0) s₁.log = 1 ∧
+    callCount (symSlot rc 0 1) s₂.log = 1 ∧ callCount (symSlot rc 1 1) s₂.log = 1 := by decide
+
+/-- …and with CFI at provider 0 the walk stops there: provider 1's supplier is never asked -/
+example :
+    let p0 : Prov := ⟨fun _ => ⟨1, .ok⟩, fun _ => true, fun _ _ => ⟨0, .ok⟩, false⟩
+    let p1 : Prov := ⟨fun _ => ⟨2, .ok⟩, fun _ => true, fun _ _ => ⟨1, .ok⟩, false⟩
+    let rc : RCfg := ⟨[⟨.path 0 0, some 0, some 0, some 0⟩], [p0, p1], [[⟨.walk, 0⟩], [⟨.walk, 0⟩]]⟩
+    let s := rexec rc [0, 1, 0, 1, 0, 1]
+    gallFin (toICfg rc) s = true ∧ outcomes rc 0 s.log = [.walkOk 0] ∧ outcomes rc 1 s.log = [.walkOk 0] ∧
+    callCount (symSlot rc 0 0) s.log = 1 ∧ callCount (symSlot rc 1 0) s.log = 0 := by decide
+
+/-! ### 8.5 "the pending counters end with requested = processed = number of distinct modules asked for" -/
+
+/-- the `symbols` slots of provider `p` that the (compiled) programs mention: one per distinct
+    module key that some `fill_symbol` / `walk_frame` request brings to provider `p` -/
+def symKeys (rc : RCfg) (p : Nat) : List Nat :=
+  (allKeys (compile (toICfg rc))).filter (isSym rc p)
+
+theorem reqCount_eq_callsOf (rc : RCfg) (p : Nat) (log : List Event) :
+    reqCount rc p log = callsOf (isSym rc p) log := rfl
+theorem procCount_eq_retsOf (rc : RCfg) (p : Nat) (log : List Event) :
+    procCount rc p log = retsOf (isSym rc p) log := rfl
+
+/-- **C12.8i** every provider's counters, at every moment: `processed ≤ requested ≤` number of
+    distinct module keys brought to it. `get_file_path` requests never count. -/
+theorem provider_counters (rc : RCfg) (sched : List Nat) (p : Nat) :
+    procCount rc p (rexec rc sched).log ≤ reqCount rc p (rexec rc sched).log ∧
+    reqCount rc p (rexec rc sched).log ≤ (symKeys rc p).length := by
+  have hA := invA_reach (compile (toICfg rc)) sched
+  have hC := countInv_reach (compile (toICfg rc)) sched
+  rw [reqCount_eq_callsOf, procCount_eq_retsOf, rexec_log, callsOf_eq_filter hA hC,
+    retsOf_eq_filter hA hC]
+  constructor
+  · apply filter_length_mono
+    intro k hk
+    simp only [Bool.and_eq_true] at hk ⊢
+    refine ⟨hk.1, ?_⟩
+    cases hs : (exec (compile (toICfg rc)) sched (init (compile (toICfg rc)))).slot k <;>
+      simp_all [Slot.isDone, Slot.nonEmpty]
+  · apply filter_length_mono
+    intro k hk
+    simp only [Bool.and_eq_true] at hk
+    exact hk.1
+
+/-- **C12.8j** once every task has finished: `requested = processed =` that number, per provider -/
+theorem provider_counters_final (rc : RCfg) (sched : List Nat) (p : Nat)
+    (hfin : gallFin (toICfg rc) (rexec rc sched) = true) :
+    reqCount rc p (rexec rc sched).log = (symKeys rc p).length ∧
+    procCount rc p (rexec rc sched).log = (symKeys rc p).length := by
+  have hA := invA_reach (compile (toICfg rc)) sched
+  have hC := countInv_reach (compile (toICfg rc)) sched
+  rw [rexec_allFin] at hfin
+  rw [reqCount_eq_callsOf, procCount_eq_retsOf, rexec_log, callsOf_eq_filter hA hC,
+    retsOf_eq_filter hA hC]
+  unfold symKeys
+  constructor
+  · congr 1
+    apply List.filter_congr
+    intro k hk
+    obtain ⟨r, hr⟩ := all_done_of_allFin hA hfin hk
+    simp [hr, Slot.nonEmpty]
+  · congr 1
+    apply List.filter_congr
+    intro k hk
+    obtain ⟨r, hr⟩ := all_done_of_allFin hA hfin hk
+    simp [hr, Slot.isDone]
+
+/-- the distinct module keys some `fill_symbol` / `walk_frame` request asks for -/
+def askedKeys (rc : RCfg) : List Nat :=
+  dedup ((rc.progs.flatten.filter fun q => match q.kind with
+    | .file _ => false
+    | _ => true).map fun q => rc.key q.mod)
+
+theorem nodup_map_of_inj_on {l : List Nat} (hn : l.Nodup) (f : Nat → Nat)
+    (hinj : ∀ a ∈ l, ∀ b ∈ l, f a = f b → a = b) : (l.map f).Nodup := by
+  induction l with
+  | nil => simp
+  | cons a l ih =>
+    have hn' := List.nodup_cons.mp hn
+    simp only [List.map_cons, List.nodup_cons, List.mem_map]
+    refine ⟨?_, ih hn'.2 (fun x hx y hy => hinj x (List.mem_cons_of_mem _ hx) y (List.mem_cons_of_mem _ hy))⟩
+    rintro ⟨b, hb, he⟩
+    have := hinj b (List.mem_cons_of_mem _ hb) a (by simp) he
+    exact hn'.1 (this ▸ hb)
+
+theorem mem_flatten_prog {rc : RCfg} {q : Req} (h : q ∈ rc.progs.flatten) :
+    ∃ t, t < rc.T ∧ q ∈ rc.prog t := by
+  rw [List.mem_flatten] at h
+  obtain ⟨l, hl, hq⟩ := h
+  obtain ⟨t, ht, rfl⟩ := List.getElem_of_mem hl
+  exact ⟨t, ht, by simp [RCfg.prog, List.getD_eq_getElem?_getD, ht, hq]⟩
+
+theorem zero_mem_specConsulted (rc : RCfg) (q : Req) (hP : 0 < rc.P) : 0 ∈ specConsulted rc q := by
+  unfold specConsulted
+  split
+  · split <;> simp [hP]
+  · simp [hP]
+
+/-- **C12.8k** the property's wording for the first provider — in particular for a plain
+    `Symbolizer`: the number its counters end with is the number of DISTINCT MODULES (distinct
+    `module_key`s) asked for through `fill_symbol` / `walk_frame` -/
+theorem counters_are_distinct_modules {rc : RCfg} (hwf : rc.WF) (hP : 0 < rc.P) :
+    (symKeys rc 0).length = (askedKeys rc).length := by
+  have hnA : (symKeys rc 0).Nodup := List.Nodup.sublist List.filter_sublist (nodup_dedup _)
+  have hkeys : ∀ k ∈ askedKeys rc, k < rc.M := by
+    intro k hk
+    simp only [askedKeys, mem_dedup, List.mem_map, List.mem_filter] at hk
+    obtain ⟨q, ⟨hq, _⟩, rfl⟩ := hk
+    obtain ⟨t, _, hqt⟩ := mem_flatten_prog hq
+    exact key_lt hwf hqt
+  have hnB : ((askedKeys rc).map (symSlot rc 0)).Nodup :=
+    nodup_map_of_inj_on (nodup_dedup _) _
+      (fun a ha b hb h => (symSlot_inj (hkeys a ha) (hkeys b hb) h).2)
+  have hAB : symKeys rc 0 ⊆ (askedKeys rc).map (symSlot rc 0) := by
+    intro s hs
+    simp only [symKeys, List.mem_filter] at hs
+    rcases slot_forms hwf hs.1 with ⟨p', t, q, _, hq, hnf, rfl⟩ | ⟨p', k, fk, _, _, _, rfl⟩ |
+      ⟨t, j, p', fk, m, _, _, _, rfl⟩
+    · have h0 := hs.2
+      rw [isSym_symSlot rc (key_lt hwf hq)] at h0
+      simp only [decide_eq_true_eq] at h0
+      subst h0
+      refine List.mem_map.mpr ⟨rc.key q.mod, ?_, rfl⟩
+      simp only [askedKeys, mem_dedup, List.mem_map, List.mem_filter]
+      refine ⟨q, ⟨List.mem_flatten.mpr ⟨_, rc_prog_mem hq, hq⟩, ?_⟩, rfl⟩
+      cases hk : q.kind with
+      | file fk => exact absurd hk (hnf fk)
+      | fill => rfl
+      | walk => rfl
+    · have := hs.2; rw [isSym_fileSlot] at this; cases this
+    · have := hs.2; rw [isSym_privSlot] at this; cases this
+  have hBA : (askedKeys rc).map (symSlot rc 0) ⊆ symKeys rc 0 := by
+    intro s hs
+    obtain ⟨k, hk, rfl⟩ := List.mem_map.mp hs
+    have hkM := hkeys k hk
+    simp only [askedKeys, mem_dedup, List.mem_map, List.mem_filter] at hk
+    obtain ⟨q, ⟨hq, hkind⟩, rfl⟩ := hk
+    obtain ⟨t, ht, hqt⟩ := mem_flatten_prog hq
+    simp only [symKeys, List.mem_filter, isSym_symSlot rc hkM, decide_true, and_true]
+    apply mem_allKeys_of_prog (t := t)
+    rw [compile_prog, toICfg_prog rc ht, compS_expandFrom hwf ht 0 (rc.prog t) (by intro i _; simp)]
+    obtain ⟨j, hj, hjq⟩ := List.getElem_of_mem hqt
+    rw [List.mem_flatMap]
+    refine ⟨(q, j), List.mem_zipIdx_iff_getElem?.mpr (by simp [List.getElem?_eq_getElem hj, hjq]), ?_⟩
+    rw [List.mem_map]
+    refine ⟨0, zero_mem_specConsulted rc q hP, ?_⟩
+    cases hk : q.kind with
+    | file fk => simp [hk] at hkind
+    | fill => simp [reqItem, hk]
+    | walk => simp [reqItem, hk]
+  have h1 := hnA.length_le_of_subset hAB
+  have h2 := hnB.length_le_of_subset hBA
+  simp only [List.length_map] at h1 h2
+  omega
+
+/-- non-vacuity: a plain symbolizer; three tasks, four modules of which two have the same key
+    (no code file / empty code file) and one is only asked for through `get_file_path`:
+    requested = processed = 2 distinct modules. -/
+example :
+    let prov : Prov := ⟨fun _ => ⟨1, .ok⟩, fun _ => true, fun _ _ => ⟨1, .notFound⟩, false⟩
+    let rc : RCfg := ⟨[⟨.absent, some 0, some 0, some 0⟩, ⟨.empty, some 0, some 0, some 0⟩,
+        ⟨.path 0 1, some 1, some 1, some 1⟩, ⟨.path 0 2, some 2, some 2, some 2⟩], [prov],
+      [[⟨.fill, 0⟩, ⟨.walk, 2⟩], [⟨.walk, 1⟩, ⟨.file 1, 3⟩], [⟨.fill, 2⟩]]⟩
+    let s := rexec rc [0, 1, 2, 0, 1, 2, 0, 1, 2, 0, 1, 2, 0, 1, 2, 0, 1]
+    gallFin (toICfg rc) s = true ∧ reqCount rc 0 s.log = 2 ∧ procCount rc 0 s.log = 2 ∧
+      (askedKeys rc).length = 2 ∧ (symKeys rc 0).length = 2 := by decide
+
+/-! ### 8.6 "No request is lost or deadlocks" at the level of requests -/
+
+/-- **C12.8l** after any schedule the completion phase ends with every task finished: every
+    request of every kind, through any number of providers, is answered -/
+theorem requests_finish (rc : RCfg) (sched : List Nat) :
+    gallFin (toICfg rc) (gfinish (toICfg rc) (gfuel (toICfg rc)) (rexec rc sched)) = true :=
+  g_round_robin_finishes (toICfg rc) sched
+
+theorem requests_finish_waker_respecting (rc : RCfg) (sched : List Nat) :
+    gallFin (toICfg rc) (gfinishW (toICfg rc) (gfuel (toICfg rc)) (rexec rc sched)) = true :=
+  g_waker_rounds_finish (toICfg rc) sched
+
+theorem requests_no_lost_wakeup (rc : RCfg) (sched : List Nat)
+    (hnf : gallFin (toICfg rc) (rexec rc sched) = false) :
+    grunnable (toICfg rc) (rexec rc sched) ≠ [] :=
+  g_runnable_nonempty (toICfg rc) sched hnf
+
+/-! ### 8.7 `stats()` after the run
+
+  Keyed by `leafname(code_file)` (NOT by the module key); one insert-overwrite per returned
+  `locate_symbols`, inside the `get_symbols` closure. -/
+
+theorem ret_sym_form {rc : RCfg} (hwf : rc.WF) (sched : List Nat) {p s : Nat}
+    (hr : Event.ret s ∈ (rexec rc sched).log) (hs : isSym rc p s = true) :
+    ∃ t q, q ∈ rc.prog t ∧ s = symSlot rc p (rc.key q.mod) := by
+  rw [rexec_log] at hr
+  exact sym_slot_form hwf
+    (ret_mem_allKeys (invA_reach _ sched) (countInv_reach _ sched) hr) hs
+
+/-- **C12.8m** `stats_match_outcomes`: if distinct module keys have distinct code-file leaf names,
+    then at every moment (a) the entry of a module whose `locate_symbols` has returned is the one
+    outcome that supplier gave — which is what every requester observed (C12.8f) — and (b) there
+    is no other entry. (Without the hypothesis this fails: finding F16, owned by C13.) -/
+theorem stats_match_outcomes {rc : RCfg} (hwf : rc.WF) (hdist : rc.LeafDistinct) (sched : List Nat)
+    (p : Nat) :
+    (∀ t q, q ∈ rc.prog t → Event.ret (symSlot rc p (rc.key q.mod)) ∈ (rexec rc sched).log →
+      statGet (statWrites rc p (rexec rc sched).log) (leafOfKey rc (rc.key q.mod)) =
+        some ((rc.prov p).sym (rc.key q.mod)).res) ∧
+    (∀ l r, statGet (statWrites rc p (rexec rc sched).log) l = some r →
+      ∃ t q, q ∈ rc.prog t ∧ Event.ret (symSlot rc p (rc.key q.mod)) ∈ (rexec rc sched).log ∧
+        l = leafOfKey rc (rc.key q.mod) ∧ r = ((rc.prov p).sym (rc.key q.mod)).res) := by
+  -- every write comes from a returned call of a module some request names
+  have hform : ∀ l r, (l, r) ∈ statWrites rc p (rexec rc sched).log →
+      ∃ t q, q ∈ rc.prog t ∧ Event.ret (symSlot rc p (rc.key q.mod)) ∈ (rexec rc sched).log ∧
+        l = leafOfKey rc (rc.key q.mod) ∧ r = ((rc.prov p).sym (rc.key q.mod)).res := by
+    intro l r hm
+    obtain ⟨s, hret, hs, rfl, rfl⟩ := mem_statWrites.mp hm
+    obtain ⟨t, q, hq, rfl⟩ := ret_sym_form hwf sched hret hs
+    have hk := key_lt hwf hq
+    refine ⟨t, q, hq, hret, ?_, ?_⟩
+    · rw [symSlot_div, pair_mod hk]
+    · rw [slotSup_sym rc hk]
+  constructor
+  · intro t q hq hret
+    have hk := key_lt hwf hq
+    apply statGet_of_unique
+    · refine ⟨_, mem_statWrites.mpr ⟨_, hret, by rw [isSym_symSlot rc hk]; simp, ?_, rfl⟩⟩
+      rw [symSlot_div, pair_mod hk]
+    · intro r' hm
+      obtain ⟨t', q', hq', _, hl, hr⟩ := hform _ _ hm
+      have hm1 : q.mod < rc.M := (hwf _ (rc_prog_mem hq) q hq).1
+      have hm2 : q'.mod < rc.M := (hwf _ (rc_prog_mem hq') q' hq').1
+      have := hdist q.mod q'.mod hm1 hm2 hl
+      rw [hr, this]
+  · intro l r h
+    exact hform l r (statGet_some_mem h)
+
+/-- non-vacuity (two modules, distinct leaves, one `ParseError`, one `Ok`; both hypotheses hold) and
+    the reason for the hypothesis: with the SAME leaf name and different outcomes the entry
+    depends on which call returned last. -/
+example :
+    let prov : Prov := ⟨fun k => ⟨1, if k = 0 then .parseError else .ok⟩, fun _ => true, fun _ _ => ⟨0, .notFound⟩, false⟩
+    let rc : RCfg := ⟨[⟨.path 0 0, some 0, some 0, some 0⟩, ⟨.path 0 1, some 1, some 1, some 1⟩], [prov],
+      [[⟨.fill, 0⟩], [⟨.walk, 1⟩, ⟨.fill, 0⟩]]⟩
+    let s := rexec rc [0, 1, 0, 1, 1]
+    gallFin (toICfg rc) s = true ∧
+    statGet (statWrites rc 0 s.log) (some 0) = some .parseError ∧
+    statGet (statWrites rc 0 s.log) (some 1) = some .ok ∧
+    statGet (statWrites rc 0 s.log) none = none := by decide
+
+example :
+    let prov : Prov := ⟨fun k => ⟨1, if k = 0 then .parseError else .ok⟩, fun _ => true, fun _ _ => ⟨0, .notFound⟩, false⟩
+    -- same leaf `m0.so` in two directories: two different modules, one statistics key
+    let rc : RCfg := ⟨[⟨.path 0 0, some 0, some 0, some 0⟩, ⟨.path 1 0, some 1, some 1, some 1⟩], [prov],
+      [[⟨.fill, 0⟩], [⟨.fill, 1⟩]]⟩
+    statGet (statWrites rc 0 (rexec rc [0, 1, 0, 1]).log) (some 0) = some .ok ∧
+    statGet (statWrites rc 0 (rexec rc [1, 0, 1, 0]).log) (some 0) = some .parseError := by decide
 
 end MdModel.Once
